@@ -555,7 +555,15 @@ Retain ==
   /\ UNCHANGED <<dbf, jr, wal, ltxLast, lvars, pc, plan, todo, refImg, salts, mx, ckpted, mvars>>
   /\ H("Retain", [x |-> 0])
 
-Next == \/ Crash \/ Retain \/ DropDB \/ BeginJ \/ JCreate \/ JSync \/ JPage \/ JRbTrunc \/ JRbPage \/ JFinal \/ JTrunc
+\* an interrupted receive (or any crashed writer) leaves temporary files behind in the ltx directory;
+\* they are never transaction files (C09), so nothing in the model changes
+Litter ==
+  /\ AllowRetain /\ pc = "idle" /\ ops < MaxOps /\ Live /\ ltxN > 0
+  /\ ops' = ops + 1
+  /\ UNCHANGED <<dvars, lvars, pc, plan, todo, refImg, salts, mx, ckpted, mvars>>
+  /\ H("Litter", [x |-> 0])
+
+Next == \/ Crash \/ Retain \/ Litter \/ DropDB \/ BeginJ \/ JCreate \/ JSync \/ JPage \/ JRbTrunc \/ JRbPage \/ JFinal \/ JTrunc
         \/ BeginW \/ WHdr \/ WFrame \/ WEnd \/ Ckpt \/ LCkpt
 Spec == Init /\ [][Next]_vars
 
